@@ -119,7 +119,7 @@ pub fn run(kind: &str, args: &[&str]) -> Option<Obs> {
         "xbattr" => {
             let ice = int(args[0]);
             let nfonts = int(args[1]);
-            // one row of 16*16*2*2*pages cells; with nfonts=2 a leading page-0 and trailing page-1 cell guarantee both pages are in use
+            // one row of 16*16*2*2*pages cells; with nfonts=2 the row holds page-0 and page-1 cells, so both fonts are in use
             let pages: i64 = if nfonts == 2 { 2 } else { 1 };
             let mut cells = Vec::new();
             for page in 0..pages {
